@@ -40,7 +40,7 @@ def run(run):
     run.assumptions += ["numpy: reshape/nanmean(axis=...)/astype; 2-D indexing is [row, col]",
                         "Image.clear() fills with the mode's undefined value (C15.R2)"]
     run.undecided_clauses += ["numerical value of the means and integer rounding", "codec behaviour (PNG/JPEG/FITS I/O)"]
-    for r, n in (("C02.R1", 2), ("C02.R2", 2), ("C02.R3", 2), ("C02.R4", 1), ("C02.R5", 1), ("C02.R6", 1), ("C02.R7", 1)):
+    for r, n in (("C02.R1", 2), ("C02.R2", 2), ("C02.R3", 2), ("C02.R4", 1), ("C02.R5", 1), ("C02.R6", 1), ("C02.R7", 1), ("C02.R8", 1)):
         run.floor(r, n)
     _r1_tables(run)
     _r2_selection(run)
@@ -58,6 +58,17 @@ def run(run):
             chains = c15._r1_chains(sub, members)
             c15._r2_conventions(sub, members, chains)
     _common.delegate(run, "C02.R7", "C15", conv, only_rules={"C15.R2"}, note="premise of 'an all-undefined parent is removed, not stored'")
+    # "which children exist" is read from the disk at merge time: in a parallel cascade the children were written by other
+    # processes, so nothing in the tile I/O layer (or the merger) may answer from a remembered copy of the directory state
+    from . import memo
+    n_tab = 0
+    for modname in ("toasty.pyramid", M):
+        n_tab += memo.check_module(run, "C02.R8", modname)
+    if not memo.selfcheck():
+        run.undecided("C02.R8", None, None, "memo rule self-check failed", kind="selfcheck", construct="<memo selfcheck>")
+    if not [o for o in run.obs if o.rule == "C02.R8"]:
+        run.holds("C02.R8", run.project.fn("toasty.pyramid.PyramidIO.read_image"), None, "the tile I/O layer and the merger keep no memo table / cached reading of "
+                  "the file system (%d uses); positive example flagged" % n_tab, table_uses=n_tab)
 
 
 def _slice_half(node, consts=None):
